@@ -188,7 +188,7 @@ func init() {
 			if tier == "thorough" {
 				return []*engine.Scenario{mk("c13-entitlement", []int{4, 0, 3, 2, 0}, 8)}
 			}
-			return []*engine.Scenario{mk("c13-entitlement", []int{3, 0, 2, 2, 0}, 6)}
+			return []*engine.Scenario{mk("c13-entitlement", []int{4, 0, 2, 2, 0}, 6)}
 		},
 		Assumptions: []string{
 			"no value-changing events (take rates 0, no slashes): those are C12's; rewards in the bond denom; weights 1 (aaa) and 2 (bbb) on a shared validator; stakes of 2.5e5..1e6 base units so the 1e-18 index resolution is negligible",
